@@ -8,9 +8,11 @@ import numpy as np
 
 from . import methods as M
 from . import traj
+from . import looptbl
 from .common import Disagreement, drive, ROOT
 
 PROP_MODULE = 'PbVerif.Props.C09'
+GEN_TABLES = ('Loops',)
 RULE = ('cases = (rule, residual vector kind in {mixed, all positive, all negative, ties at zero, < 2 negatives}, size 3..2000, '
         'magnitude 1e-100..1e100, scheme parameters, iteration 1..200) compared with the Lean Float instance of the rule, plus direct '
         'checks of finiteness / range / monotonicity on the real output; hosts: trajectory replay of (max_iter, tol) grids through the '
@@ -283,6 +285,22 @@ def host_level(ctx, rng, dis):
                                     f'weights are not the rule applied to the returned baseline', {'method': name, 'two_d': two_d, 'max_iter': mi}, True))
 
 
+def table_level(ctx, rng, dis):
+    """the stop rule of each loop AS TRANSLATED from the source (Gen/Loops, theorem `loops_stop_first`): every row with an early-exit
+    flag is replayed on the noise-free data sets that provoke the exit, a sample of the others on noisy data (C01 replays them all)"""
+    dis += looptbl.table_check(ctx, traj.load_golden_file())
+    for key, func, kind, r in looptbl.rows():
+        if kind != 'single':
+            continue
+        two_d = key.startswith('2d.')
+        if any(ev[0] == 'brk' and ev[1] == 'flag' for ev in r['body']):
+            x, z, _ = looptbl._data(rng, two_d)
+            for dn, yy in noise_free_sets(two_d).items():
+                dis += looptbl.replay_single(ctx, key, func, r, rng, K=40, data=(x, z, yy), note=f' [noise-free {dn} data]')
+        elif ctx.thorough or rng.random() < 0.35:
+            dis += looptbl.replay_single(ctx, key, func, r, rng, K=8)
+
+
 def correspond(ctx):
     rng = ctx.np_rng()
     dis = []
@@ -294,6 +312,7 @@ def correspond(ctx):
             dis.append(Disagreement('c09.corpus', d['signature'], f'corpus {os.path.basename(f)}: {r}', d['replay'], True))
     rule_level(ctx, rng, dis)
     host_level(ctx, rng, dis)
+    table_level(ctx, rng, dis)
     return dis
 
 
@@ -303,4 +322,6 @@ def search(ctx, hints, lean_failed):
 
 
 def replay(ctx, data):
+    if data.get('replay', {}).get('kind') == 'looptbl':
+        return looptbl.replay(ctx, data['replay'])
     return None
